@@ -110,6 +110,10 @@ def m_store_delete(c):
 
 def m_store_exists(c):
     m = kv_of(c.st)
+    se = c.st.env.get('stale_exists')
+    if se is not None:
+        # S8: the endpoint checks of create_edge were made before the other thread's delete_node ran
+        m = Map('std::string::String', 'TensorData', list(se['keys']), list(se['vals']))
     return z3.BoolVal(map_find(c.st, m, c.args[1], 'store.exists') is not None)
 
 
@@ -601,6 +605,43 @@ for es in CONC_SETS:
                         ck.require(ex, 'S4_concurrent_list_updates_keep_both', ra.pc, hyp, z3.And(cs), wit, lambda m, w: 'lost-adjacency-update')
 if windows_hit == 0:
     ck.inconclusive.append('S4 vacuous: no path used a stale read')
+
+# ------------------------------------------------------------------ S8: delete_node between create_edge's endpoint checks and its writes
+ck.declare('S8_create_edge_vs_delete_node', 'thread A: create_edge(from, to); thread B: delete_node(n) run entirely after A has checked that both endpoints exist and before A writes anything',
+           'when both return Ok the graph is consistent at quiescence - in particular the new edge does not name a node that no longer exists')
+s8 = 0
+for es in ([], [(0, 1)]):
+    for dirs in itertools.product((True, False), repeat=len(es)):
+        st = ex.new_state()
+        G = Graph(st, NN, es, concrete=True)
+        G.add_lists(st, dirs)
+        ge = engine(st)
+        ge.fields[F('GraphEngine', 'edge_counter')] = Struct('AtomicU64', {'data': Cell(val=Int(U64(200), False))})
+        kv0 = kv_of(st)
+        snap_keys, snap_vals = list(kv0.keys), list(kv0.vals)
+        a1, a2, bn = z3.BitVec('arg1', 64), z3.BitVec('arg2', 64), z3.BitVec('b_node', 64)
+        st.assume(z3.And(z3.ULT(a1, U64(1 << 59)), z3.ULT(a2, U64(1 << 59)), z3.ULT(bn, U64(1 << 59))))
+        resB = run(st, 'GraphEngine::delete_node', [ref(ge), Int(bn, False)])
+        ck.note_path_problem(resB, f'S8 delete_node edges={es}')
+        for rb in resB:
+            if rb.status != 'return' or rb.retval.variant != 'Ok':
+                continue
+            s1 = rb.st
+            s1.env['stale_exists'] = {'keys': snap_keys, 'vals': snap_vals}
+            resA = run(s1, 'GraphEngine::create_edge', [ref(s1.roots['ge']), Int(a1, False), Int(a2, False), Str(z3.BitVec('new_type', 64)), Map('std::string::String', 'PropertyValue', [], []), z3.Bool('new_directed')])
+            ck.note_path_problem(resA, f'S8 create_edge edges={es}')
+            for ra in resA:
+                if ra.status != 'return' or ra.retval.variant != 'Ok':
+                    continue
+                s8 += 1
+                n1, e1, l1 = snapshot(ra.st)
+                wit = lambda m, G=G, es=es, dirs=dirs: {'graph_call': 'create_edge', 'nodes': [mval(m, x) for x in G.nid], 'edges': [[a, b, mval(m, G.eid[j]), dirs[j]] for j, (a, b) in enumerate(es)],
+                                                        'arg1': mval(m, a1), 'arg2': mval(m, a2), 'new_directed': bool(mval(m, z3.Bool('new_directed'))),
+                                                        'concurrent': {'window': 'endpoints_checked', 'delete_node': mval(m, bn)}}
+                ck.require(ex, 'S8_create_edge_vs_delete_node', ra.pc, None, consistent(n1, e1, l1), wit, lambda m, w: 'edge-created-on-deleted-node')
+            s1.env.pop('stale_exists', None)
+if s8 == 0:
+    ck.inconclusive.append('S8 vacuous')
 
 # ------------------------------------------------------------------ S5: id counters after a reopen
 # GraphEngine::with_store / with_store_and_config scan the store for the highest node and edge id.  The keys here are concrete
